@@ -145,6 +145,25 @@ pub fn corr(ctx: &mut Ctx) {
     let mut lens: Vec<usize> = (0..=34).collect();
     lens.extend_from_slice(&[47, 48, 49, 63, 64, 65, 127, 128, 129, 255, 256, 257, 300, 1024]);
     if !ctx.quick() { lens.extend_from_slice(&[4095, 4096, 4097, 20000, 65536, 65537]); }
+    // long byte vectors (a length threshold above which another path is taken): Vec<u8> and String only, in process
+    for n in [4096usize, 8192, 8193, 16_385, 70_001] {
+        let v8: Vec<u8> = (0..n).map(|_| ctx.rng.next() as u8).collect();
+        ctx.begin_case(&format!("sig long vec<u8> / String n={}", n));
+        ctx.mark_nontrivial();
+        ctx.count("long byte vectors");
+        let s8: Vec<u64> = v8.iter().map(|x| *x as u64).collect();
+        ctx.line(&format!("sig vecu8 {}", join(&s8)), &hexb(&v8.get_sig()));
+        // two vectors of the same length that differ only in the middle must have different identities
+        let mut w8 = v8.clone();
+        w8[n / 2] ^= 0x5a;
+        if v8.get_sig() == w8.get_sig() || v8.get_sig() != v8 {
+            ctx.oracle_failure(serde_json::json!({"kind":"impl_violates_property","key":format!("vecu8-long:n={}",n),"what":"long Vec<u8>: identity is not the bytes themselves / two different vectors share an identity","n":n,"sig_len":v8.get_sig().len()}));
+        }
+        let st: String = (0..n).map(|i| (b'a' + (v8[i] % 26)) as char).collect();
+        if st.get_sig() != st.as_bytes() {
+            ctx.oracle_failure(serde_json::json!({"kind":"impl_violates_property","key":format!("string-long:n={}",n),"what":"long String: identity is not its UTF-8 bytes","n":n}));
+        }
+    }
     for (i, n) in lens.iter().enumerate() {
         let v8: Vec<u8> = (0..*n).map(|_| ctx.rng.next() as u8).collect();
         ctx.begin_case(&format!("sig vec n={}", n));
